@@ -330,8 +330,9 @@ func verifLayout(maxK int) []int {
 }
 
 func verifFillChannel(pj *internalParsedJson, pos []int) {
-	// split the index stream into buffers at arbitrary points where the buffer ends on markup (what stage 1
-	// guarantees: a non-markup last index is stripped and re-sent with the next buffer); the reference never sees the split
+	// split the index stream into buffers at the points stage 1 can produce: a non-markup last index is stripped (once) and
+	// re-sent with the next buffer, so either the buffer ends on markup or the next buffer starts with a non-markup token
+	// (then the buffer may end on anything, e.g. on the first of two newlines); the reference never sees the split
 	pj.indexChans = make(chan indexChan, indexSlots-2)
 	slot := 0
 	start := 0
@@ -340,7 +341,7 @@ func verifFillChannel(pj *internalParsedJson, pos []int) {
 	if len(pos) > 1 && verifChoice("split", 2) == 1 {
 		// one hand-over point (more than one adds nothing: the consumer state carried across a hand-over is the same)
 		cut = 1 + verifChoice("splitat", len(pos)-1)
-		verifAssume(jsonMarkup(pj.Message[pos[cut-1]]))
+		verifAssume(jsonMarkup(pj.Message[pos[cut-1]]) || (cut < len(pos) && !jsonMarkup(pj.Message[pos[cut]])))
 	}
 	for start < len(pos) {
 		end := len(pos)
